@@ -106,3 +106,32 @@ func (mc *memberCore) shouldAcceptMessage(
 
 	return !isMessageFromSelf && isSenderValid && isSenderAccepted
 }
+
+// shouldAcceptAccusationMessage indicates whether the given member should
+// accept an accusation message from the given sender. The sender is accepted
+// if it was operating before the current member verified the data received in
+// the previous phase, i.e. it is one of the given accusers. The members the
+// current member has just disqualified on its own in that verification (and
+// accused) are still considered as operating by the other members, which
+// accept and resolve the accusations they publish. The current member must
+// resolve them as well to end up with the same view as the other members.
+func (mc *memberCore) shouldAcceptAccusationMessage(
+	senderID group.MemberIndex,
+	senderPublicKey []byte,
+	accusers []group.MemberIndex,
+) bool {
+	isMessageFromSelf := senderID == mc.ID
+	isSenderValid := mc.membershipValidator.IsValidMembership(
+		senderID,
+		senderPublicKey,
+	)
+	isSenderAccepted := false
+	for _, accuser := range accusers {
+		if accuser == senderID {
+			isSenderAccepted = true
+			break
+		}
+	}
+
+	return !isMessageFromSelf && isSenderValid && isSenderAccepted
+}
